@@ -52,7 +52,7 @@ pub fn check(o: &FOutcome) -> Checked {
             }
             FEv::Start { id, wid, inc, .. } => jobs.entry(*id).or_default().starts.push((*ts, *wid, *inc)),
             FEv::End { id, .. } => jobs.entry(*id).or_default().ends += 1,
-            FEv::Discard { id, reason } => jobs.entry(*id).or_default().discards.push(reason.clone()),
+            FEv::Discard { id, reason, .. } => jobs.entry(*id).or_default().discards.push(reason.clone()),
             FEv::Accept { id, accepted } => jobs.entry(*id).or_default().accepted = Some(*accepted),
             FEv::WorkerGone { wid, inc, inflight, reported_inflight } => gone.push((*ts, *wid, *inc, *inflight, *reported_inflight)),
             FEv::Op(s) if s == "stop" || s == "drain" => exit_op = s.clone(),
@@ -64,6 +64,20 @@ pub fn check(o: &FOutcome) -> Checked {
             FEv::Op(s) if s.starts_with("WRONG-JOB-RETURNED") => v.push(("wrong-job-returned".into(), s.clone(), "wrong-job-returned".into())),
             FEv::Op(s) if s.starts_with("port-pending") => v.push(("acceptance-port-hangs".into(), s.clone(), "acceptance-port-hangs".into())),
             _ => {}
+        }
+    }
+    // a discard handler installed at run time (UpdateSettings carrying only the handler) is the one told from then on: a discard
+    // reported after a barrier that was answered behind the update must go to handler 2, wherever the job was queued
+    if let Some(set_ts) = o.evs.iter().find_map(|(ts, _, e)| matches!(e, FEv::Op(s) if s == "set handler 2").then_some(*ts)) {
+        if let Some(proof) = barriers.iter().find(|b| **b > set_ts) {
+            for (ts, _, e) in &o.evs {
+                if let FEv::Discard { id, reason, handler } = e {
+                    if *ts > *proof && *handler != 2 {
+                        v.push(("discard-to-stale-handler".into(), format!("job {id} was discarded ({reason}) at #{ts} and reported to discard handler {handler}, but handler 2 had been installed at #{set_ts} and a barrier queued behind that update was answered at #{proof}: the installed handler never hears of this job"), "discard-to-stale-handler".into()));
+                        break;
+                    }
+                }
+            }
         }
     }
     let worker_queued = !o.cfg.router.factory_queued();
@@ -187,7 +201,7 @@ pub fn run(args: &Args, rep: &mut Report) {
     };
     for seed in seeds {
         crate::watch_begin(seed);
-        let cfg = gen_cfg(seed, 13);
+        let cfg = if seed % 4 == 1 { gen_cfg_settings(seed) } else { gen_cfg(seed, 13) };
         let o = run_scenario(seed, cfg);
         crate::watch_end();
         let c = check(&o);
